@@ -2,3 +2,4 @@
 pub mod util;
 pub mod paygen;
 pub mod srvenv;
+pub mod rrdpsrv;
